@@ -13,8 +13,8 @@ cp -r /repo/tests/default_membranes /repo/tests/VLE_data "$D/tests/"
 for P in "$@"; do
   echo "=== $P on $(basename $PATCH)"
   if [ "$RUNS" = "quick" ]; then
-    VERIF_REPO="$D" timeout 3000 /venv/bin/python /verif/checks/run.py "$P" --tier quick --no-evidence 2>&1 | grep -E "^(OK|VIOLATION|HARNESS|violation in|minimised|KNOWN)" | cut -c1-600
+    VERIF_REPLAY_DIR="$D/replays" VERIF_REPO="$D" timeout 3000 /venv/bin/python /verif/checks/run.py "$P" --tier quick --no-evidence 2>&1 | grep -E "^(OK|VIOLATION|HARNESS|violation in|minimised|KNOWN)" | cut -c1-600
   else
-    VERIF_REPO="$D" timeout 3000 /venv/bin/python /verif/checks/run.py "$P" --runs "$RUNS" --no-evidence 2>&1 | grep -E "^(OK|VIOLATION|HARNESS|violation in|minimised|KNOWN)" | cut -c1-600
+    VERIF_REPLAY_DIR="$D/replays" VERIF_REPO="$D" timeout 3000 /venv/bin/python /verif/checks/run.py "$P" --runs "$RUNS" --no-evidence 2>&1 | grep -E "^(OK|VIOLATION|HARNESS|violation in|minimised|KNOWN)" | cut -c1-600
   fi
 done
